@@ -223,6 +223,11 @@ func runCase(c Case) outcome {
 		ctx, cancel = context.WithTimeout(context.Background(), 60*time.Millisecond)
 	case "cancel-dl": // a context that also carries a (far) deadline, cancelled explicitly
 		ctx, cancel = context.WithTimeout(context.Background(), 45*time.Second)
+	case "cancel-cause": // cancelled with a custom cause: the context's own error is still context.Canceled
+		c2, cc := context.WithCancelCause(context.Background())
+		ctx, cancel = c2, func() { cc(errors.New("daemon shutting down")) }
+	case "deadline-cause":
+		ctx, cancel = context.WithTimeoutCause(context.Background(), 60*time.Millisecond, errors.New("request budget used up"))
 	case "parent-cancel": // the parent of a deadline-carrying, value-carrying child is cancelled
 		parent, pcancel := context.WithCancel(context.Background())
 		child, ccancel := context.WithTimeout(context.WithValue(parent, ctxKey{}, 1), 45*time.Second)
@@ -283,7 +288,7 @@ func runCase(c Case) outcome {
 	}()
 	var cancelledAt time.Time
 	switch c.Variant {
-	case "cancel", "cancel-dl", "parent-cancel":
+	case "cancel", "cancel-dl", "parent-cancel", "cancel-cause":
 		select {
 		case <-st.stalled:
 			o.stalledHit = true
@@ -294,7 +299,7 @@ func runCase(c Case) outcome {
 			cancelledAt = time.Now()
 			cancel()
 		}
-	case "deadline":
+	case "deadline", "deadline-cause":
 		select {
 		case <-st.stalled:
 			o.stalledHit = true
@@ -331,7 +336,11 @@ func runCase(c Case) outcome {
 type ctxKey struct{}
 
 func stallVariant(v string) bool {
-	return v == "cancel" || v == "deadline" || v == "cancel-dl" || v == "parent-cancel"
+	switch v {
+	case "cancel", "deadline", "cancel-dl", "parent-cancel", "cancel-cause", "deadline-cause":
+		return true
+	}
+	return false
 }
 
 func plain(role string) bool { return role == "sender" || role == "receiver" }
@@ -341,7 +350,7 @@ func judge(c Case, o outcome, base outcome) string {
 		// harness-level failure (e.g. could not establish the session)
 	}
 	switch c.Variant {
-	case "cancel", "deadline", "cancel-dl", "parent-cancel":
+	case "cancel", "deadline", "cancel-dl", "parent-cancel", "cancel-cause", "deadline-cause":
 		if !o.returned {
 			return fmt.Sprintf("the call never returned after its context was cancelled (stalled at %s #%d)", c.Kind, c.K)
 		}
@@ -416,7 +425,10 @@ func TestC19Stalls(t *testing.T) {
 		for _, v := range []string{"before", "after", "background"} {
 			jobs = append(jobs, job{Case{Shape: p.shape, Role: p.role, Variant: v}, base})
 		}
-		variants := []string{"cancel", "deadline", "cancel-dl", "parent-cancel"} // cheap enough to run at every index in both tiers
+		variants := []string{"cancel", "deadline", "cancel-dl", "parent-cancel"} // cheap enough
+		if plain(p.role) { // which error comes back is only specified for plain stream operations
+			variants = append(variants, "cancel-cause", "deadline-cause")
+		}
 		for _, v := range variants {
 			for k := 0; k < base.reads; k++ {
 				jobs = append(jobs, job{Case{Shape: p.shape, Role: p.role, Kind: "read", K: k, Variant: v}, base})
